@@ -821,6 +821,34 @@ func corpus(out *gal.Out) {
 		conv(4, "Convert", 1), conv(5, "Convert", 8), conv(8, "ConvertS", 3), op(0, "Msg")})
 	emit(out, "corpus", base[:1], dp[:1], []opDesc{conv(0, "Convert", 0)})
 	emit(out, "corpus", base, dp[6:8], []opDesc{op(0, "Msg"), op(2, "Stack")})
+	// every method after k >= 2 Converts keeps all k converted errors: from each kind of factory a
+	// run of three Converts (Convert / ConvertS alternating, three different comparable errors and,
+	// in the second variant, a slice-typed one in between), then EVERY one of the 19 methods applied
+	// to the result of the second and of the third Convert; the matrix then asks errors.Is of every
+	// such derivation against every converted error
+	ce := []foreignDesc{{Kind: "new", Text: "c0"}, {Kind: "val", Text: "c1"}, {Kind: "ptr", Text: "c2"}, {Kind: "slice", Text: "s"},
+		{Kind: "new", Text: "c4"}}
+	for ki, kind := range base {
+		for variant := 0; variant < 2; variant++ {
+			roots := []rootDesc{kind, {Kind: "base", Name: "Other", IsFac: true}}
+			e1 := 1
+			if variant == 1 {
+				e1 = 3 // a non-comparable error in the middle: it never matches, the others still do
+			}
+			ops := []opDesc{conv(0, "Convert", 0), conv(2, "ConvertS", e1), conv(3, "Convert", 2)}
+			for _, from := range []int{3, 4} {
+				for _, m := range methodNames {
+					o := opDesc{Recv: ref{"cell", from}, M: m, Src: "s", DTag: "t", Fmt: "f", Err: ref{"nil", 0}}
+					if m == "Convert" || m == "ConvertS" {
+						o.Err = ref{"foreign", 4}
+					}
+					ops = append(ops, o)
+				}
+			}
+			_ = ki
+			emit(out, "corpus", roots, ce, ops)
+		}
+	}
 	// the repository's TestExtendedError_Equality shape, on every kind of factory
 	emit(out, "corpus", base, fs, []opDesc{op(0, "Stack"), op(0, "Stack"), op(1, "Stack"), op(2, "Stack"), op(2, "Stack"),
 		op(3, "Msg"), conv(2, "Convert", 0), conv(3, "Convert", 3), conv(0, "Convert", 4)})
